@@ -372,7 +372,7 @@ func CheckLayout(r *fw.R, toks []int, c config) (result []lineInfo, dropped bool
 		})
 		for i := 1; i < len(idx); i++ {
 			p, q := ln.spans[idx[i-1]], ln.spans[idx[i]]
-			if p.x+p.w > q.x+eps {
+			if !(p.x+p.w <= q.x+eps) {
 				viol("spans-overlap", "line %d: [%.6g,%.6g) and [%.6g,%.6g); %s", j, p.x, p.x+p.w, q.x, q.x+q.w, desc())
 				break
 			}
@@ -416,15 +416,15 @@ func CheckLayout(r *fw.R, toks []int, c config) (result []lineInfo, dropped bool
 		}
 		switch c.halign {
 		case canvas.Left:
-			if math.Abs(start-ind) > eps {
+			if !(math.Abs(start-ind) <= eps) {
 				viol("left-aligned-line-does-not-start-at-indent"+sfx, "line %d starts at %.9g, expected %g; %s", j, start, ind, desc())
 			}
 		case canvas.Right:
-			if math.Abs(end-W) > eps {
+			if !(math.Abs(end-W) <= eps) {
 				viol("right-aligned-line-does-not-end-at-width"+sfx, "line %d ends at %.9g, width %g; %s", j, end, W, desc())
 			}
 		case canvas.Center:
-			if math.Abs((start-ind)-(W-end)) > eps {
+			if !(math.Abs((start-ind)-(W-end)) <= eps) {
 				viol("centred-line-not-centred"+sfx, "line %d: left margin %.9g (after indent %g), right margin %.9g; %s", j, start-ind, ind, W-end, desc())
 			}
 		case canvas.Justify:
@@ -465,7 +465,7 @@ func CheckLayout(r *fw.R, toks []int, c config) (result []lineInfo, dropped bool
 			}
 			if ratio >= -1 && ratio <= text.Tolerance {
 				r.Outcome("justify:line-within-tolerance")
-				if math.Abs(end-W) > tol {
+				if !(math.Abs(end-W) <= tol) {
 					viol("justified-line-within-tolerance-does-not-end-at-width"+sfx, "line %d ends at %.9g, width %g, needed ratio %.6g (L=%.6g Y=%.6g Z=%.6g); %s", j, end, W, ratio, L, Y, Z, desc())
 				}
 				if math.Abs(end-W) <= tol {
@@ -473,7 +473,7 @@ func CheckLayout(r *fw.R, toks []int, c config) (result []lineInfo, dropped bool
 				}
 			} else {
 				r.Outcome("justify:line-outside-tolerance")
-				if math.Abs(end-L) > tol {
+				if !(math.Abs(end-L) <= tol) {
 					viol("justified-line-outside-tolerance-not-left-unstretched"+sfx, "line %d ends at %.9g, natural end %.9g, needed ratio %.6g; %s", j, end, L, ratio, desc())
 				}
 			}
@@ -615,7 +615,7 @@ func checkVertical(r *fw.R, viol func(string, string, ...any), t *canvas.Text, i
 	case canvas.Top:
 		if !okTop {
 			r.Outcome("first-line-empty(top-edge-not-observable)")
-		} else if math.Abs(top) > eps {
+		} else if !(math.Abs(top) <= eps) {
 			viol("top-aligned-first-line-not-at-top", "top of first line at %.9g; %s", top, desc())
 		} else {
 			r.Outcome("valign-ok:Top")
@@ -623,7 +623,7 @@ func checkVertical(r *fw.R, viol func(string, string, ...any), t *canvas.Text, i
 	case canvas.Bottom:
 		if !okBottom {
 			r.Outcome("last-line-empty(bottom-edge-not-observable)")
-		} else if math.Abs(bottom+H) > eps {
+		} else if !(math.Abs(bottom+H) <= eps) {
 			viol("bottom-aligned-last-line-not-at-bottom", "bottom of last line at %.9g, box bottom %g; %s", bottom, -H, desc())
 		} else {
 			r.Outcome("valign-ok:Bottom")
@@ -631,7 +631,7 @@ func checkVertical(r *fw.R, viol func(string, string, ...any), t *canvas.Text, i
 	case canvas.Center, canvas.Middle:
 		if !okTop || !okBottom {
 			r.Outcome("first-or-last-line-empty(centring-not-observable)")
-		} else if math.Abs(-top-(bottom+H)) > eps {
+		} else if !(math.Abs(-top-(bottom+H)) <= eps) {
 			viol("vertically-centred-block-not-centred", "margin above %.9g, below %.9g; %s", -top, bottom+H, desc())
 		} else {
 			r.Outcome("valign-ok:Center")
@@ -650,7 +650,7 @@ func checkVertical(r *fw.R, viol func(string, string, ...any), t *canvas.Text, i
 		case len(lines) == 1:
 			if !okTop {
 				r.Outcome("first-line-empty(top-edge-not-observable)")
-			} else if math.Abs(top) > eps {
+			} else if !(math.Abs(top) <= eps) {
 				viol("vertically-justified-single-line-not-at-top", "top of the only line at %.9g; %s", top, desc())
 			} else {
 				r.Outcome("valign-ok:Justify-single-line")
